@@ -96,7 +96,7 @@ def main():
         for pid in [prop] + also:
             for tier in (["quick", "thorough"] if "--thorough" in args or pid == prop else ["quick"]):
                 t0 = time.time()
-                rc, o = sh([os.path.join(VERIF, "check"), pid, "--tier", tier, "--repo", wt] + (["--legs", "native"] if tier == "quick" else []), cwd=VERIF, env=env2, timeout=7200)
+                rc, o = sh([os.path.join(VERIF, "check"), pid, "--tier", tier, "--repo", wt], cwd=VERIF, env=env2, timeout=7200)
                 sigs = [l.strip()[:200] for l in o.splitlines() if l.strip().startswith("[")]
                 meta["checks"]["%s/%s" % (pid, tier)] = {"rc": rc, "caught": rc == 1, "signatures": sigs[:5], "wall_s": round(time.time() - t0, 1), "tail": o[-400:] if rc not in (0, 1) else ""}
                 print("%s %s/%s rc=%d %s" % (name, pid, tier, rc, sigs[:2]), flush=True)
